@@ -353,8 +353,9 @@ fn honest_core(q: usize, pkts: &[Pk], deliv: &[(usize, usize)], fails: &mut Fail
             }
         };
         let mut emitted_this = false;
-        match out {
+        match &out {
             Ok(Some((so, payload))) => {
+                let so = *so;
                 st.emissions += 1;
                 match so_to_pid.get(&so) {
                     None => fails.push("honest:emitted-unknown-stream-offset", || {
@@ -366,7 +367,7 @@ fn honest_core(q: usize, pkts: &[Pk], deliv: &[(usize, usize)], fails: &mut Fail
                             fails.push("honest:emitted-length-differs", || {
                                 format!("step {stepno}: packet {e} (stream offset {so}, {} bytes sent) emitted with {} bytes", data[e].len(), payload.len())
                             });
-                        } else if payload != data[e] {
+                        } else if *payload != data[e] {
                             let pos = payload.iter().zip(&data[e]).position(|(a, b)| a != b).unwrap();
                             let from = (0..np).find(|&o| o != e && data[o].get(pos) == Some(&payload[pos]));
                             fails.push("honest:emitted-bytes-differ", || {
@@ -813,7 +814,7 @@ fn honest_strategy() -> impl Strategy<Value = HonestCase> {
 }
 
 fn run_honest(ctx: &Ctx) {
-    let n = ctx.tier.pick(60_000, 3_000_000);
+    let n = ctx.tier.pick(100_000, 3_000_000);
     ctx.run_prop("honest-schedules", n, honest_strategy, check_honest);
 }
 
@@ -895,8 +896,12 @@ fn hostile_core(q: usize, frames: &[Vec<u8>], fails: &mut Fails) -> HostileStats
                 };
                 let empty_last = hs.iter().any(|h| h.last && h.payload.is_empty() && h.fo == payload.len());
                 let mid_beyond = hs.iter().any(|h| !h.last && h.fo >= payload.len());
+                // a middle frame where the LAST frame announcing this length starts
+                let mid_at_last = hs.iter().any(|h| !h.last && hs.iter().any(|l| l.last && l.fo + l.payload.len() == payload.len() && h.fo >= l.fo));
                 let class = if mid_beyond {
                     "middle-frame-beyond-announced-end"
+                } else if mid_at_last {
+                    "middle-frame-at-last-frame-offset"
                 } else if empty_last {
                     "empty-last-frame"
                 } else if several_last {
@@ -1000,16 +1005,21 @@ fn hostile_labels(frames: &[Vec<u8>], st: &HostileStats, obs: &mut Obs) {
 }
 
 /// a completed honest packet that leaves foreign bytes in the slot buffers
-fn dirty_prelude(out: &mut Vec<Vec<u8>>) {
-    let so = 0xD1_0000_0000u64;
-    let w = 8984usize;
-    let size = DOC_MAX_PACKET;
-    let n = size.div_ceil(w);
-    for i in 0..n {
-        let lo = i * w;
-        let hi = (lo + w).min(size);
-        out.push(enc(so, lo as u16, if i + 1 == n { LAST } else { 0 }, [0; 4], (lo..hi).map(|x| pbyte(0xD1D1, x as u32))));
-    }
+fn dirty_prelude() -> &'static Vec<Vec<u8>> {
+    static P: std::sync::OnceLock<Vec<Vec<u8>>> = std::sync::OnceLock::new();
+    P.get_or_init(|| {
+        let so = 0xD1_0000_0000u64;
+        let w = 8984usize;
+        let size = DOC_MAX_PACKET;
+        let n = size.div_ceil(w);
+        (0..n)
+            .map(|i| {
+                let lo = i * w;
+                let hi = (lo + w).min(size);
+                enc(so, lo as u16, if i + 1 == n { LAST } else { 0 }, [0; 4], (lo..hi).map(|x| pbyte(0xD1D1, x as u32)))
+            })
+            .collect()
+    })
 }
 
 #[derive(Clone, Debug, Serialize, Deserialize)]
@@ -1021,16 +1031,19 @@ struct HostileCase {
 
 fn check_hostile(c: &HostileCase, obs: &mut Obs) -> CheckResult {
     let mut frames: Vec<Vec<u8>> = Vec::new();
-    if c.dirty {
-        dirty_prelude(&mut frames);
-    }
+    let skip = if c.dirty {
+        frames.extend(dirty_prelude().iter().cloned());
+        frames.len()
+    } else {
+        0
+    };
     frames.extend(c.frames.iter().map(|f| f.bytes()));
     let mut fails = Fails::default();
     let st = hostile_core(c.q.max(1) as usize, &frames, &mut fails);
-    hostile_labels(&frames, &st, obs);
+    hostile_labels(&frames[skip..], &st, obs);
     obs.evals(frames.len().max(1) as u64);
     if !c.frames.is_empty() {
-        obs.nontrivial(&frames);
+        obs.nontrivial(&(c.q, c.dirty, &frames[skip..]));
     }
     fails.verdict()
 }
@@ -1074,7 +1087,7 @@ fn check_small(c: &SmallCase, obs: &mut Obs) -> CheckResult {
     frames.extend(c.seq.iter().map(|&i| alpha[i as usize % alpha.len()].bytes()));
     let mut fails = Fails::default();
     let st = hostile_core(c.q.max(1) as usize, &frames, &mut fails);
-    hostile_labels(&frames, &st, obs);
+    hostile_labels(&frames[5..], &st, obs);
     obs.evals(frames.len() as u64);
     obs.nontrivial(&(c.q, &c.seq));
     fails.verdict()
@@ -1306,7 +1319,7 @@ fn check_code(c: &CodeCase, obs: &mut Obs) -> CheckResult {
     check_hostile(&hc, obs)
 }
 fn run_code(ctx: &Ctx) {
-    let n = ctx.tier.pick(150_000, 6_000_000);
+    let n = ctx.tier.pick(100_000, 4_000_000);
     ctx.run_prop(
         "hostile-bytecode",
         n,
@@ -1414,7 +1427,7 @@ fn check_memory(c: &MemCase, obs: &mut Obs) -> CheckResult {
     Ok(())
 }
 fn run_memory(ctx: &Ctx) {
-    let n = ctx.tier.pick(400, 8_000);
+    let n = ctx.tier.pick(2_000, 40_000);
     ctx.run_prop(
         "memory",
         n,
